@@ -28,6 +28,7 @@ import (
 	"github.com/bufbuild/verifharness/internal/reg"
 	"github.com/google/uuid"
 	"google.golang.org/protobuf/proto"
+	"google.golang.org/protobuf/types/descriptorpb"
 )
 
 func init() { reg.Register("image-replay", run) }
@@ -103,7 +104,12 @@ func Render(c Case, f string) (string, int) {
 		w("package " + pkgFor(c, f) + ";")
 	}
 	for _, g := range c.Imports[f] {
-		w(`import "` + PathOf[g] + `";`)
+		switch {
+		case f == "c":
+			w(`import weak "` + PathOf[g] + `";`) // the imports of c are weak imports
+		default:
+			w(`import "` + PathOf[g] + `";`)
+		}
 	}
 	if c.Planted == "missing-import" && f == "a" {
 		w(`import "does/not/exist.proto";`)
@@ -410,6 +416,23 @@ func run(in []byte) (*reg.Result, error) {
 						res.Violate("descriptor/"+sel+"/"+map[bool]string{true: "import", false: "target"}[f.IsImport()], caseInfo,
 							"descriptor of %s differs from an independent protocompile compilation of the same source (image has %d source info locations)", f.Path(),
 							len(f.FileDescriptorProto().GetSourceCodeInfo().GetLocation()))
+					}
+				}
+				// the image as it is written out (`buf build -o`): the same descriptors, file by file
+				if pimg, err := bufimage.ImageToProtoImage(image); err != nil {
+					res.Violate("serialized/error/"+sel, caseInfo, "ImageToProtoImage failed: %v", err)
+				} else if data, err := proto.Marshal(pimg); err == nil {
+					set := &descriptorpb.FileDescriptorSet{}
+					// (an image is wire-compatible with a FileDescriptorSet; the buf extension is an unknown field there)
+					if err := (proto.UnmarshalOptions{DiscardUnknown: true}).Unmarshal(data, set); err == nil {
+						for k, f := range image.Files() {
+							if k < len(set.File) && !proto.Equal(set.File[k], f.FileDescriptorProto()) {
+								res.Violate("serialized/descriptor/"+sel, caseInfo, "the descriptor of %s in the serialized image differs from the descriptor of the built image (dependencies %v public %v weak %v vs %v public %v weak %v)",
+									f.Path(), set.File[k].Dependency, set.File[k].PublicDependency, set.File[k].WeakDependency,
+									f.FileDescriptorProto().Dependency, f.FileDescriptorProto().PublicDependency, f.FileDescriptorProto().WeakDependency)
+								break
+							}
+						}
 					}
 				}
 				if i < 2 {
